@@ -18,6 +18,9 @@ pub enum Entry {
 pub enum Cwd {
     App,
     SrcTauri,
+    /// a workspace member below src-tauri (app/src-tauri/crates/member): the
+    /// tauri.conf.json is found one or two levels up
+    Member,
 }
 #[derive(Clone, Copy, Debug, PartialEq, Eq, PartialOrd, Ord, Serialize, Deserialize)]
 pub enum ConfSrc {
@@ -77,6 +80,24 @@ impl Setup {
             (Entry::Build, Cwd::SrcTauri, ConfSrc::Tauri),
             (Entry::Build, Cwd::SrcTauri, ConfSrc::Standalone),
             (Entry::Build, Cwd::App, ConfSrc::Standalone),
+        ] {
+            v.push(Setup {
+                entry,
+                cwd,
+                conf,
+                out: "app/src/generated".into(),
+                out_style: OutStyle::Plain,
+                proj_style: 0,
+            });
+        }
+        v
+    }
+    /// the basic combinations plus the rarer working directories
+    pub fn all_extended() -> Vec<Setup> {
+        let mut v = Setup::all_basic();
+        for (entry, cwd, conf) in [
+            (Entry::Build, Cwd::Member, ConfSrc::Tauri),
+            (Entry::Cli, Cwd::Member, ConfSrc::Flags),
         ] {
             v.push(Setup {
                 entry,
@@ -192,6 +213,11 @@ impl World {
         match s.cwd {
             Cwd::App => self.app(),
             Cwd::SrcTauri => self.src_tauri(),
+            Cwd::Member => {
+                let p = self.src_tauri().join("crates/member");
+                let _ = fs::create_dir_all(&p);
+                p
+            }
         }
     }
     pub fn out_dir(&self, s: &Setup) -> PathBuf {
@@ -259,11 +285,24 @@ impl World {
         let up = match s.cwd {
             Cwd::App => 1,
             Cwd::SrcTauri => 2,
+            Cwd::Member => 4,
         };
         let cwd_rel = match s.cwd {
             Cwd::App => "app",
             Cwd::SrcTauri => "app/src-tauri",
+            Cwd::Member => "app/src-tauri/crates/member",
         };
+        if s.cwd == Cwd::Member {
+            if target_rel_root == "app/src-tauri" {
+                return "../..".into();
+            }
+            if let Some(rest) = target_rel_root.strip_prefix("app/src-tauri/") {
+                return format!("../../{}", rest);
+            }
+            if let Some(rest) = target_rel_root.strip_prefix("app/") {
+                return format!("../../../{}", rest);
+            }
+        }
         if let Some(rest) = target_rel_root.strip_prefix(&format!("{}/", cwd_rel)) {
             return format!("./{}", rest);
         }
@@ -286,6 +325,9 @@ impl World {
             (1, Cwd::SrcTauri) => "./".into(),
             (2, Cwd::SrcTauri) => "../src-tauri".into(),
             (3, Cwd::SrcTauri) => "./src/..".into(),
+            (1, Cwd::Member) => "../../".into(),
+            (2, Cwd::Member) => "../../../src-tauri".into(),
+            (3, Cwd::Member) => "./../..".into(),
             _ => plain,
         }
     }
